@@ -151,6 +151,14 @@ func c06(args []string) error {
 					fmt.Sprintf("http://%s/out/%d/%d/abs.html", run.org.Hosts[h], k, hops), "../rel.html"}))
 			run.org.Route(h, fmt.Sprintf("/hub%d/img%d.png", k, hops), okImage(k*10+hops))
 			add("hub", hub, hops)
+			// the same as a JSON document: its non-file URLs are outlinks found by the asset extractors
+			jhub := fmt.Sprintf("/jhub%d/h%d.json", k, hops)
+			h = len(seeds) % 2
+			run.org.Route(h, jhub, origin.Resp{Status: 200, Headers: map[string]string{"Content-Type": "application/json"},
+				Body: fmt.Sprintf(`{"next":"http://%s/jout/%d/%d/plain","items":[{"u":"http://%s/jout/%d/%d/dcmatch7"},{"file":"http://%s/jhub%d/f%d.png"}]}`,
+					run.org.Hosts[h], k, hops, run.org.Hosts[h], k, hops, run.org.Hosts[h], k, hops)})
+			run.org.Route(h, fmt.Sprintf("/jhub%d/f%d.png", k, hops), okImage(k*10+hops))
+			add("jhub", jhub, hops)
 		}
 	}
 	if err := run.Preload(seeds); err != nil {
